@@ -199,6 +199,19 @@ impl<'ast> ShallowRecord<'ast> {
         } = root_ty
         {
             // Checking mode for a dictionary
+            //
+            // As records are recursive, the fields must be bound in the inner environment before
+            // we typecheck their content: a reference to a field of the record must not be
+            // resolved to a variable of the same name in the outer environment (or be reported as
+            // unbound). Each field is checked against the type of the dictionary's elements, which
+            // is thus the type of the corresponding recursive variable.
+            for (id, _) in self.stat_fields.iter() {
+                ctxt.inner
+                    .type_env
+                    .insert(id.ident(), (*type_fields).clone());
+                visitor.visit_ident(id, (*type_fields).clone());
+            }
+
             for (_, field) in self.stat_fields.iter() {
                 field.check(state, ctxt.inner.clone(), visitor, (*type_fields).clone())?;
             }
